@@ -560,6 +560,7 @@ class Interp3(Interp2):
                 self.havoc_cell(r, nm, spec.shapes.get(nm))
         kterm = self.fresh_int('_k')
         ghost = {'_k': SInt(kterm), '__loop_entry__': loop_entry}
+        self.loop_ghost = ghost
         self.assume(kterm >= 0)
         if length is not None:
             self.assume(kterm <= length)
